@@ -12,7 +12,8 @@
 //   R.finish(B.complete);
 //
 // Watchdog: a profiling timer ticks every 0.5 s of CPU time of the process; the fourth consecutive tick that finds the same
-// case still running ends the process with SIGXCPU.  `fb::wd_seq` must be incremented at the start of every case
+// case still running ends the process with SIGXCPU; the Batcher then runs that one case again, alone, with 10 s of CPU time
+// before it calls it a hang (on an overloaded machine 2 s of charged CPU time are not proof of a loop).  `fb::wd_seq` must be incremented at the start of every case
 // (Batcher does it).
 #pragma once
 #include "vh.hpp"
@@ -28,12 +29,12 @@ extern "C" void __sanitizer_symbolize_pc(void *pc, const char *fmt, char *out_bu
 
 namespace fb {
 
-static volatile long long wd_seq = 0, wd_seen = -1; static volatile int wd_ticks = 0, wd_in_report = 0; static bool wd_trace = false;
+static volatile long long wd_seq = 0, wd_seen = -1; static volatile int wd_ticks = 0, wd_in_report = 0, wd_limit = 4; static bool wd_trace = false;
 inline void on_tick(int)
 {
 	if (wd_seq != wd_seen) { wd_seen = wd_seq; wd_ticks = 0; return; }
 	// a sanitizer that is printing its report (symbolising the stack of a 30 MB binary costs seconds) is not a hanging case
-	if (++wd_ticks < (wd_in_report ? 240 : 4)) return;
+	if (++wd_ticks < (wd_in_report ? 240 : wd_limit)) return;
 	struct itimerval off; memset(&off, 0, sizeof off); setitimer(ITIMER_PROF, &off, 0);
 	static const char msg[] = "\nforkbatch: the current case used more than 2 s of CPU time without returning: treated as a hang (SIGXCPU)\n";
 	(void)!write(2, msg, sizeof msg - 1);
@@ -146,7 +147,7 @@ struct Batcher {
 	// clause under which the death of a child inside the case `replay` is reported (mode starts with "hang:" for the watchdog)
 	std::function<std::string(const std::string& replay, const std::string& mode)> clause_of;
 	long long batch; bool is_child = false, complete = true;
-	long long left = 0, ran = 0, resume_after = -1; int efd; bool warmed = false, nofork = false;
+	long long left = 0, ran = 0, resume_after = -1; int efd; bool warmed = false, nofork = false; long long confirm = -1;	// confirm: id of the case being re-run after a watchdog stop
 	Batcher(vh::Run& r, std::function<void(const char *)> e) : R(r), exec(e), batch(r.args.num("batch", 4000)), efd(memfd_create("fberr", 0))
 	{
 		nofork = r.args.has("nofork"); clause_of = [](const std::string&, const std::string& mode) { return mode.compare(0, 5, "hang:") == 0 ? std::string("no-hang") : std::string("memory-safe-and-total"); }; }
@@ -177,36 +178,45 @@ struct Batcher {
 					if (R.cur) R.cur[0] = 0;
 					pid_t pid = fork();
 					if (pid == 0) {
-						is_child = true; ran = 0; dup2(efd, 2); start_watchdog(false);
+						is_child = true; ran = 0; dup2(efd, 2); wd_limit = confirm >= 0 ? 20 : 4; start_watchdog(false);
 						R.evaluations = R.nontrivial = R.violations = 0; R.outcomes.clear();
 						break;
 					}
 					int st = 0; while (waitpid(pid, &st, 0) < 0 && errno == EINTR) {}
-					if (WIFEXITED(st) && WEXITSTATUS(st) == 0) break;
+					if (WIFEXITED(st) && WEXITSTATUS(st) == 0) {
+						if (confirm < 0) break;
+						// the case the watchdog stopped ran to its end when given five times the CPU time: the machine was slow, not the case
+						R.outcome("watchdog-false-alarm"); resume_after = confirm; confirm = -1; continue;
+					}
 					// the child died inside a case
 					std::string err; { char buf[4096]; lseek(efd, 0, SEEK_SET); ssize_t k; while ((k = read(efd, buf, sizeof buf)) > 0 && err.size() < (1 << 18)) err.append(buf, k); }
 					long long cid; std::vector<std::string> tags; std::string rep; read_cur(cid, tags, rep);
 					const std::string mode = crash_mode(err, st);
 					const bool hang = mode.compare(0, 5, "hang:") == 0;
-					if (!warmed) {
-						// the first death in this shard: a sanitizer report needs the debug information of the whole binary, which
-						// costs seconds of CPU in a cold process (enough for the watchdog to mistake the report for a hang).  Load it
-						// once here, so that every later child inherits it, and run the same batch position again.
+					if (!warmed) {	// load the debug information once, so that the reports of later children are cheap
 						warmed = true; warm_symbolizer();
-						if (hang && cid >= 0) { resume_after = cid - 1; continue; }
 					}
+					if (hang && confirm < 0 && cid >= 0) {
+						// 2 s of CPU time in one case.  On an overloaded machine that happens to innocent cases (CPU time is charged for
+						// contention in the kernel); run this one case again, alone, with 10 s: a loop is still a loop then.
+						if (R.deadline && vh::Run::now() > R.deadline) { complete = false; return; }
+						confirm = cid; resume_after = cid - 1; continue;
+					}
+					confirm = -1;
 					R.outcome(hang ? "hang" : "crash:" + mode);
 					R.viol(clause_of(rep, mode), mode, tags, rep, hang ? "no return after 2 s of CPU time" : mode,
 						"returns or throws a library exception; no sanitizer report, no signal, no hang", err.substr(0, 1500));
 					fwrite(err.data(), 1, std::min<size_t>(err.size(), 6000), stderr);
 					if (cid < 0) { fprintf(stderr, "forkbatch: a batch child died before announcing a case; giving up on this shard\n"); R.finish(false); exit(3); }
 					resume_after = cid;
+					if (R.deadline && vh::Run::now() > R.deadline) { complete = false; return; }	// many dying cases: the deadline still holds
 				}
 				if (!is_child) left = batch;
 			}
 			if (!is_child) { --left; return; }
 		}
 		if ((long long)id > resume_after) { ++wd_seq; exec(d); }
+		if (confirm >= 0 && (long long)id >= confirm) child_done();
 		if (++ran >= batch) child_done();
 		if ((ran & 0xff) == 0) {	// partial statistics, so that a later death of this child loses at most 255 counted cases
 			++wd_seq;
